@@ -29,6 +29,20 @@ def scenarios(ctx, thorough):
         ops = copy.deepcopy(base) + [{"op": "fclose"}, {"op": "sha"}, {"op": "session"}, {"op": "opends", "p": "/e"},
                                      {"op": "fclose"}, {"op": "sha"}]
         cases.append({"cfg": {"sb": sb, "rb": "", "style": 0, "tag": "C10-noop-open"}, "ops": ops})
+        # datasets whose paths end alike (same leaf name at two depths, one name a suffix of the other): every
+        # reopened handle must address the dataset it names
+        for order in (0, 1):
+            mk = [[{"op": "mkds", "p": "/sig", "dt": "i32", "dims": [3]}, {"op": "write", "p": "/sig", "data": "seq"}],
+                  [{"op": "mkgroup", "p": "/run"}, {"op": "mkds", "p": "/run/sig", "dt": "i32", "dims": [3]}, {"op": "write", "p": "/run/sig", "data": "neg"},
+                   {"op": "mkds", "p": "/run/xsig", "dt": "i32", "dims": [3]}, {"op": "write", "p": "/run/xsig", "data": "ext"}]]
+            pre = mk[order] + mk[1 - order]
+            for tgt in ("/sig", "/run/sig", "/run/xsig"):
+                ops = copy.deepcopy(pre) + [{"op": "session"}, {"op": "opends", "p": tgt}, {"op": "attr", "p": tgt, "n": "mark", "v": "i32"},
+                                            {"op": "write", "p": tgt, "data": "rnd"}]
+                cases.append({"cfg": {"sb": sb, "rb": "", "style": 0, "tag": "C10-alike-paths"}, "ops": ops})
+            ops = copy.deepcopy(pre) + [{"op": "session"}, {"op": "opends", "p": "/sig"}, {"op": "opends", "p": "/run/sig"},
+                                        {"op": "attr", "p": "/sig", "n": "one", "v": "i32"}, {"op": "attr", "p": "/run/sig", "n": "two", "v": "f64"}]
+            cases.append({"cfg": {"sb": sb, "rb": "", "style": 0, "tag": "C10-alike-paths"}, "ops": ops})
         # attribute histories spread over sessions, crossing compact -> dense
         for t in range(40 if thorough else 8):
             ops = copy.deepcopy(base)
